@@ -21,17 +21,18 @@ use std::collections::BTreeMap;
 
 type Ev = (u8, u8, usize);
 
-fn name_of(r: &LockRecord) -> (u8, usize) {
+fn name_of(r: &LockRecord, maps: &IndexMaps) -> (u8, usize) {
     if r.index == NO_LABEL {
         // an unlabelled mutex (vanilla.rs): an opaque name
         (0, r.serial)
     } else {
-        (r.kind, r.index)
+        // canonical infoset index (internal numbering is the crate's own business)
+        (r.kind, maps.canon(r.kind, r.index))
     }
 }
 
 /// split the log at the pass markers; per pass, one trace per thread (in order of first appearance)
-fn passes_of(log: &[LockRecord]) -> Vec<Vec<Vec<Ev>>> {
+fn passes_of(log: &[LockRecord], maps: &IndexMaps) -> Vec<Vec<Vec<Ev>>> {
     let mut out: Vec<Vec<Vec<Ev>>> = Vec::new();
     let mut cur: Vec<(u64, Vec<Ev>)> = Vec::new();
     let mut started = false;
@@ -46,7 +47,7 @@ fn passes_of(log: &[LockRecord]) -> Vec<Vec<Vec<Ev>>> {
             started = true;
             continue;
         }
-        let (k, i) = name_of(r);
+        let (k, i) = name_of(r, maps);
         match cur.iter_mut().find(|(t, _)| *t == r.thread) {
             Some((_, t)) => t.push((r.op, k, i)),
             None => cur.push((r.thread, vec![(r.op, k, i)])),
@@ -78,7 +79,8 @@ fn multiset(evs: impl Iterator<Item = Ev>) -> BTreeMap<Ev, usize> {
 }
 
 pub fn check_locks(ctx: &mut Ctx, case: &Value, t: &T, cfg: &Cfg, log: &[LockRecord], ran_iters: Option<u64>) {
-    let passes = passes_of(log);
+    let maps = crate::solve_props::LAST_MAPS.lock().unwrap().clone();
+    let passes = passes_of(log, &maps);
     ctx.statn("lock_events_observed", log.len() as u64);
     ctx.statn("lock_passes_observed", passes.len() as u64);
     if !log.iter().any(|r| r.op != OP_PHASE) {
